@@ -67,7 +67,7 @@ ApplyEnd(st, k, code) == [st EXCEPT !.ended = @ \cup {k}, !.code = (k :> code) @
 (* The result document: doc[k] = [status, code] (code = -1 when absent),      *)
 (* failed flag, process exit status.                                          *)
 Statuses == {"success", "error", "undefined", "not_executable", "skipped"}
-FinishWhy(pl, st, doc, failed, rc) ==
+FinishWhys(pl, st, doc, failed, rc) ==
   LET bad(k) ==
         LET e == doc[k]  kd == pl.kind[k]  fb == FailureBefore(pl, st, k[1], G(pl, k)) IN
         IF e.status \notin Statuses THEN "C06:unknown status"
@@ -85,11 +85,17 @@ FinishWhy(pl, st, doc, failed, rc) ==
              THEN "C05:planned task with a defined command never started although nothing failed before it"
         ELSE IF kd = "undef" /\ ~pl.fou /\ ~AnyFailure(pl, st) /\ e.status # "undefined" THEN "C06:undefined command not reported as undefined"
         ELSE ""
-      S == { bad(k) : k \in Tasks(pl) } \ {""}
-  IN IF S # {} THEN CHOOSE w \in S : TRUE
-     ELSE IF failed # AnyFailure(pl, st) THEN "C06:failed flag does not match what happened"
-     ELSE IF rc # (IF failed THEN 1 ELSE 0) THEN "C06:exit status does not match failed flag"
-     ELSE ""
+      \* coverage is judged on its own, whatever the entry claims: a planned pair with a defined command that nothing
+      \* kept from running must have run (C05), also when its entry says `undefined` or `skipped` (C06 as well)
+      uncovered(k) ==
+        IF pl.kind[k] = "def" /\ ~FailureBefore(pl, st, k[1], G(pl, k)) /\ ~SameGroupFailure(pl, st, k) /\ k \notin st.started
+        THEN "C05:planned task with a defined command never started although nothing failed before it" ELSE ""
+      S == ({ bad(k) : k \in Tasks(pl) } \cup { uncovered(k) : k \in Tasks(pl) }) \ {""}
+  IN IF S # {} THEN S
+     ELSE IF failed # AnyFailure(pl, st) THEN {"C06:failed flag does not match what happened"}
+     ELSE IF rc # (IF failed THEN 1 ELSE 0) THEN {"C06:exit status does not match failed flag"}
+     ELSE {}
+FinishWhy(pl, st, doc, failed, rc) == LET W == FinishWhys(pl, st, doc, failed, rc) IN IF W = {} THEN "" ELSE CHOOSE w \in W : TRUE
 (* The part of the above that needs neither the grouping nor a complete      *)
 (* document: is ONE listed entry truthful about its own process?  Used when  *)
 (* the result document is mis-shaped (a pair missing or listed twice), so    *)
@@ -106,5 +112,5 @@ EntryWhy(pl, st, k, e) ==
   ELSE IF e.status = "skipped" /\ k \in st.started THEN "C06:skipped reported for a process that ran"
   ELSE IF ExitFail(st, k) /\ e.status # "error" THEN "C06:non-zero exit not reported as error"
   ELSE ""
-FinishOK(pl, st, doc, failed, rc) == FinishWhy(pl, st, doc, failed, rc) = ""
+FinishOK(pl, st, doc, failed, rc) == FinishWhys(pl, st, doc, failed, rc) = {}
 =============================================================================
